@@ -73,6 +73,49 @@
  "native": false
 }
 */
+/* VERIF-UNIT
+{
+ "name": "unix_write_blk64_rf",
+ "props": ["C17"],
+ "level": "U",
+ "tier": "wip",
+ "harness": "h_write_cached",
+ "enforce": ["unix_write_blk64"],
+ "replace": ["reuse_cache", "flush_cached_blocks", "raw_write_blk", "memcpy"],
+ "loop_contracts": true,
+ "unwind": 64,
+ "unwindset": {"build_channel.0": 9, "find_cached_block.0": 9},
+ "unwind_reason": "only the harness loop that builds the 8 cache entries and DFCC library loops are unwound; the function's loop is closed by its loop contract",
+ "defines": ["CFG_BS=16"],
+ "functions": ["lib/ext2fs/unix_io.c:unix_write_blk64"],
+ "assumes": ["IO_FLAG_THREADS clear", "no write_error handler installed", "block size in {16, 1024}: 16 is a configuration bound for tractability (the function only adds the block size to a cursor and passes it on as a length), 1024 the smallest real block size", "fewer than 2^31-512 cache accesses per channel (int access clock)", "caller's buffer does not alias a cache buffer", "block numbers below 2^46", "CHANNEL_FLAGS_WRITETHROUGH is set before any block is dirtied (nothing in the tree toggles it)"],
+ "backend": "cadical",
+ "timeout": 300,
+ "cbmc_flags": ["--object-bits", "10"],
+ "native": false
+}
+*/
+/* VERIF-UNIT
+{
+ "name": "unix_write_blk64_unw_rf",
+ "props": ["C17"],
+ "level": "U/k",
+ "tier": "wip",
+ "harness": "h_write_cached",
+ "enforce": ["unix_write_blk64"],
+ "replace": ["reuse_cache", "flush_cached_blocks", "raw_write_blk", "memcpy"],
+ "unwind": 64,
+ "unwindset": {"build_channel.0": 9, "find_cached_block.0": 9, "unix_write_blk64.0": 5},
+ "unwind_reason": "cached path only for 1..WRITE_DIRECT_SIZE(4) blocks",
+ "defines": ["CFG_BS=16"],
+ "functions": ["lib/ext2fs/unix_io.c:unix_write_blk64"],
+ "assumes": [],
+ "backend": "cadical",
+ "timeout": 300,
+ "cbmc_flags": ["--object-bits", "10"],
+ "native": false
+}
+*/
 
 /* ---- invariant of unix_write_blk64's loop (expanded inside the real function: channel, block, count, buf, data, cache,
  *      reuse, retval, cp, writethrough are its variables) ---- */
@@ -83,7 +126,7 @@
 		DATA.access_time, DATA.io_stats.bytes_written, g_disk, g_nwrites, g_wfail, GALL_CBUFS) \
 	__CPROVER_loop_invariant(0 <= count && count <= g_count0 && block == g_block0 + W_DONE) \
 	__CPROVER_loop_invariant(cp == (const char *)buf + W_DONE * CFG_BS) \
-	__CPROVER_loop_invariant(DATA.access_time >= 0 && DATA.access_time + 2 * count <= 0x7ffffe10) \
+	__CPROVER_loop_invariant(DATA.access_time >= 0 && DATA.access_time <= 0x7ffffe10 - 2 * count) \
 	__CPROVER_loop_invariant(writethrough ? !ANY(GINUSE_DIRTY) : retval == 0) \
 	__CPROVER_loop_invariant((g_wfail != 0) == (retval != 0)) \
 	__CPROVER_loop_invariant( \
